@@ -77,7 +77,7 @@ let site_of (c : string) : string =
   | "prop" :: _ -> "propertyTokenResolver-split-without-key"
   | ["rands"; n] -> if String.length n > 0 && n.[0] = '-' then "RandStringRunes-negative-length" else "RandStringRunes-length"
   | ["mpread"; len; _; _; _] -> if len = "0" then "MultiPassReader-empty-source" else "MultiPassReader"
-  | ["grpcjson"; file] -> if file = "-" then "grpcjson-empty-file" else "grpcjson-start-loop"
+  | ["grpcjson"; _; file] -> if file = "-" then "grpcjson-empty-file" else "grpcjson-start-loop"
   | "cfg" :: _ -> "scenario-config-DecodeMap"
   | _ -> "unknown"
 
@@ -173,11 +173,12 @@ let rec predict_inner (c : string) (obs : string) : string * string * bool =
       let obs_l = String.split_on_char ',' obs in
       let rec stutter = function a :: (b :: _ as r) -> (a = "0/0" && b = "0/0") || stutter r | _ -> false in
       (p, verdict (not (bad_status obs) && not (stutter obs_l)) (site_of c ^ " no-progress: Read returns (0, nil) repeatedly, consumers spin"), true)
-  | ["grpcjson"; file] ->
-      let rs = grpc_decode unmarshal max_token (nat_of_int k_acq) (bytes_of_hex file) in
+  | ["grpcjson"; cont; file] ->
+      let rs = grpc_decode unmarshal (cont = "1") max_token (nat_of_int k_acq) (bytes_of_hex file) in
       let rec pr n = function
         | [] -> [if n >= k_acq then "more" else "truncated"]
         | GDeliver (t, c) :: r -> Printf.sprintf "G:%s:%s" (hex_of_bytes t) (hex_of_bytes c) :: pr (n + 1) r
+        | GInvalid :: r -> "GI" :: pr (n + 1) r
         | GErr :: _ -> ["err"]
         | GSpin :: _ -> ["hang"] in
       safe (String.concat " " (pr 0 rs))
